@@ -174,7 +174,8 @@ Qed.
 (* partial correctness by the loop invariant x^2 = a b:  for EVERY modulus, draw and input *)
 Lemma ts_loop_sound p a : forall fuel x b y r,
   cong p (x * x) (a * b) ->
-  let res := ts_loop fuel p x b y r in res <> -1 -> res <> -2 -> cong p (res * res) a.
+  ts_loop fuel p x b y r <> -1 -> ts_loop fuel p x b y r <> -2 ->
+  cong p (ts_loop fuel p x b y r * ts_loop fuel p x b y r) a.
 Proof.
   induction fuel as [|f IH]; intros x b y r Hinv; cbn [ts_loop]; [intros _ H; contradiction H; reflexivity|].
   destruct (Z.eqb_spec b 1) as [->|Hb].
@@ -191,9 +192,10 @@ Lemma tonelli_sound : Tonelli_sound_stmt.
 Proof.
   intros p a draws x. unfold tonelli.
   destruct (split2 _ (p - 1) 0) as [q e].
-  destruct (pick _ draws) as [g|]; [|discriminate]. intros [= <-].
-  apply ts_loop_sound. rewrite !cong_rem.
-  apply eq_subrelation; [typeclasses eauto|ring].
+  destruct (pick _ draws) as [g|]; [|discriminate].
+  match goal with |- Some ?t = Some x -> _ => intros Hx; assert (Hx' : t = x) by congruence; clear Hx end.
+  intros Hm1 Hm2. rewrite <- Hx' in *. apply ts_loop_sound; [|exact Hm1|exact Hm2].
+  rewrite !cong_rem. apply eq_subrelation; [typeclasses eauto|ring].
 Qed.
 
 (* ---------------------------------------------------------------------------------------- sqrootmodprime *)
